@@ -413,10 +413,9 @@ impl Family for ParseTrees {
                 for (tn, sep) in [("newline", "\n"), ("comment", " // c\n "), ("double", "  "), ("none", "")] {
                     let joined = join(&tmin, sep);
                     if sep.is_empty() {
-                        // only where no two adjacent tokens fuse
-                        let kinds_sep: Vec<String> = lexer::lex(&join(&tmin, " ")).iter().filter(|k| !k.kind.is_trivia()).map(|k| k.text.to_string()).collect();
-                        let kinds_none: Vec<String> = lexer::lex(&joined).iter().filter(|k| !k.kind.is_trivia()).map(|k| k.text.to_string()).collect();
-                        if kinds_sep != kinds_none {
+                        // only where no two adjacent tokens fuse - by the language's own list of tokens, not by asking the
+                        // lexer under test (a lexer that has grown a token `<-` must not be the judge of `a<-b`)
+                        if tmin.windows(2).any(|w| tokens_fuse(&w[0], &w[1])) {
                             continue;
                         }
                     }
@@ -597,6 +596,21 @@ fn run_position(case: &Value) -> Report {
         rep.tag("parse:position-independent");
     }
     rep
+}
+
+/// would two tokens written without a blank between them read as something else? Words and numbers run together;
+/// the operators of more than one character are `== != <= >= && || -> => ::` (and `//` starts a comment); a digit and a
+/// point make a float
+fn tokens_fuse(a: &str, b: &str) -> bool {
+    let (Some(x), Some(y)) = (a.chars().last(), b.chars().next()) else { return false };
+    let word = |c: char| c.is_alphanumeric() || c == '_';
+    if word(x) && word(y) {
+        return true;
+    }
+    if (x.is_ascii_digit() && y == '.') || (x == '.' && y.is_ascii_digit()) {
+        return true;
+    }
+    matches!((x, y), ('=', '=') | ('!', '=') | ('<', '=') | ('>', '=') | ('&', '&') | ('|', '|') | ('-', '>') | ('=', '>') | (':', ':') | ('/', '/') | ('/', '*') | ('.', '.'))
 }
 
 /// how a condition / scrutinee can end, just before the `{` of the body
